@@ -1,8 +1,8 @@
 SPECIFICATION Spec
 CONSTANTS
   Dev = {}
-  Identities <- BaseIdentities
-  ExtraStarts = {4, 5, 7, 127, 130, 254}
+  Families <- BaseFamilies
+  ExtraStarts = {5, 7, 130}
 INVARIANT SizeBound
 INVARIANT RspWellFormed
 INVARIANT PageBound
@@ -12,5 +12,4 @@ INVARIANT Complete
 INVARIANT NoException
 INVARIANT MoreFlag
 INVARIANT Individual
-PROPERTY ChainTerminates
 CHECK_DEADLOCK FALSE
